@@ -41,8 +41,8 @@ func (nolog) Fatal(string) {}
 type tele struct{}
 
 func (tele) CreateUpdateObservableHistogram(name, description string) {}
-func (tele) RecordHistogramTime(name string, t time.Duration) bool      { return true }
-func (tele) RecordHistogramValue(name string, f float64) bool           { return true }
+func (tele) RecordHistogramTime(name string, t time.Duration) bool    { return true }
+func (tele) RecordHistogramValue(name string, f float64) bool         { return true }
 
 type Violation struct {
 	Key  string `json:"key"`
@@ -170,7 +170,12 @@ func scenario(seed int64, idx int, withExpiry bool) run {
 		switch x := rng.Intn(100); {
 		case x < 22: // propose: contract or pure transfer, honest or with a corrupted issuer signature
 			data := rng.Intn(3) != 0
-			it := newTrx(data, issuer, recv)
+			to := recv
+			if rng.Intn(6) == 0 { // a transaction addressed to its own issuer: the receiver's action is still required for a contract
+				to = issuer
+				out.stats["propose.self_addressed"]++
+			}
+			it := newTrx(data, issuer, to)
 			pt, _ := transformers.TrxToProtoTrx(it.t)
 			honest := rng.Intn(5) != 0
 			if !honest {
@@ -197,6 +202,10 @@ func scenario(seed int64, idx int, withExpiry bool) run {
 			it := items[rng.Intn(len(items))]
 			t := it.t
 			kind := rng.Intn(5)
+			recv := recv
+			if t.ReceiverAddress == issuer.Address() {
+				recv = issuer
+			}
 			signer := recv
 			if kind == 0 {
 				signer = other // somebody else countersigns: Sign refuses (address differs), so forge the field instead
@@ -237,6 +246,10 @@ func scenario(seed int64, idx int, withExpiry bool) run {
 				continue
 			}
 			it := items[rng.Intn(len(items))]
+			recv := recv
+			if it.t.ReceiverAddress == issuer.Address() {
+				recv = issuer
+			}
 			who := recv
 			switch rng.Intn(5) {
 			case 0:
@@ -310,6 +323,49 @@ func scenario(seed int64, idx int, withExpiry bool) run {
 			}
 			record(fmt.Sprintf("NWaiting %d %d %v", aid(a.Address()), bid, signer == a), res, fmt.Sprintf("waiting %d blob-of=%d signed-by=%d", aid(a.Address()), aid(blobOwner.Address()), aid(signer.Address())))
 			out.stats["waiting"]++
+		case x < 93 && withExpiry && len(blobs) > 0: // a challenge used once while valid stays bound to its ORIGINAL expiry
+			var a *wallet.Wallet
+			for _, wl := range ws {
+				if _, ok := blobs[wl.Address()]; ok {
+					a = wl
+				}
+			}
+			blob := blobs[a.Address()]
+			d, sg := a.Sign(blob)
+			// a fresh challenge so that its age is known: issued now, longevity 1 s
+			if b, err := srv.Data(bg, &protobufcompiled.Address{Public: a.Address()}); err == nil {
+				blobs[a.Address()], blobID[a.Address()] = b.Blob, nextBlob
+				record(fmt.Sprintf("NData %d %d", aid(a.Address()), nextBlob), "NOk", fmt.Sprintf("data for %d = blob %d", aid(a.Address()), nextBlob))
+				nextBlob++
+				blob = b.Blob
+				d, sg = a.Sign(blob)
+			}
+			use := func(note string) {
+				resp, err := srv.Waiting(bg, &protobufcompiled.SignedHash{Address: a.Address(), Data: blob, Hash: d[:], Signature: sg})
+				res := "NErr"
+				if err == nil {
+					var ids []int
+					for _, t := range resp.Array {
+						ids = append(ids, hid[[32]byte(t.Hash)])
+					}
+					sort.Ints(ids)
+					res = fmt.Sprintf("(NList %s)", strings.ReplaceAll(fmt.Sprint(ids), " ", ";"))
+				}
+				record(fmt.Sprintf("NWaiting %d %d %v", aid(a.Address()), blobID[a.Address()], true), res, fmt.Sprintf("waiting %d own challenge %s", aid(a.Address()), note))
+				if note == "after its expiry" && err == nil {
+					violate("stale-challenge-accepted", fmt.Sprintf("Waiting for %d accepted a challenge %s (issued 1.3 s ago, longevity 1 s, used once at 0.65 s)", aid(a.Address()), note))
+				}
+			}
+			time.Sleep(650 * time.Millisecond)
+			use("at 0.65 s")
+			time.Sleep(650 * time.Millisecond)
+			for _, wl := range ws {
+				if _, ok := blobs[wl.Address()]; ok {
+					record(fmt.Sprintf("NExpire %d", aid(wl.Address())), "NOk", fmt.Sprintf("challenge of %d expires", aid(wl.Address())))
+				}
+			}
+			use("after its expiry")
+			out.stats["expiry_slide"]++
 		case x < 96 && withExpiry: // let every challenge expire
 			time.Sleep(1100 * time.Millisecond)
 			for _, a := range ws {
